@@ -1,4 +1,5 @@
 import Pyrtma.Proofs.ManagerSim
+import Pyrtma.Proofs.ManagerOrder
 /-!
 # Refinement of the history-based Spec by the manager model M1 — part 3: one frame read
 
@@ -601,6 +602,7 @@ structure QuietTo (cfg : Cfg) (s1 s2 : State) : Prop where
   top : Top cfg s2
   j : J s2
   noAck : Quiet isAck s1 s2
+  noData : ∀ k, Quiet (cp k) s1 s2
 
 theorem noErr_applyDepartures {p : String} {a : Spec.A} (evs : List Ev) (h : Spec.NoErr p a) :
     Spec.NoErr p (Spec.applyDepartures a evs) := by
@@ -730,14 +732,14 @@ end pm
 /-! ## one frame: the cases -/
 
 /-- the properties whose Spec clauses are proved to hold on every run of the model -/
-def proven : List String := ["C19"]
+def proven : List String := ["C19", "C01"]
 
 /-- the tags of all the other clauses -/
-def others : List String := ["C01", "C03", "C05", "C06", "C07", "C14", "C18"]
+def others : List String := ["C03", "C05", "C06", "C07", "C14", "C18"]
 
 theorem proven_not {p : String} (hp : p ∈ proven) : p ∉ others := by
-  simp only [proven, List.mem_singleton] at hp
-  subst hp; decide
+  simp only [proven, List.mem_cons, List.not_mem_nil, or_false] at hp
+  rcases hp with rfl | rfl <;> decide
 
 theorem ext_others {T : List String} {a b : Spec.A} (h : Spec.ErrExt T a b)
     (hs : ∀ p, p ∈ T → p ∈ others := by simp [others]) : Spec.CoreExt others a b := (h.mono hs).core
@@ -838,23 +840,6 @@ theorem seg_setName_bad (hn : (rd.h.mtype == cfg.mtSetName) = true) (hnm : cstr 
       (Spec.checkDepartures cfg (Spec.checkAcks cfg (Spec.afterBuf cfg a rd) rd.uid false evs) (some rd.uid) evs) := by
     rw [Spec.checkAcks_false_ok cfg _ rd.uid evs hnil]
     exact ext_others (Spec.checkDepartures_ext cfg _ _ evs)
-  exact segGoal_of hseg rfl (seg_close (rdState_sim inv.sim rd) (rdState_top ok hfuel inv.top rd) n q evs he hW)
-
-theorem seg_data (hn : (rd.h.mtype == cfg.mtSetName) = false) (hr : (rd.h.mtype == cfg.mtModuleReady) = false) :
-    SegGoal cfg a rd evs s2 := by
-  rw [readOne_whole cfg s rd inv.top.good.ok m hm hb, pm_data cfg _ _ _ hc hd hs hn hr] at q
-  obtain ⟨Z, hZ, hseg⟩ := Spec.segment_data cfg a rd evs am hget hal hb hc hd hs hn hr
-  obtain ⟨fr, hfr⟩ : ∃ fr : Frame, fr = Frame.mk rd.h.mtype rd.h.src rd.h.dest rd.h.destHost rd.h.nbytes.toNat (.data rd.h.k) :=
-    ⟨_, rfl⟩
-  rw [← hfr] at q
-  have hfb : fr.body ≠ .ack := by rw [hfr]; simp
-  have n := (logTop_nest cfg 10 (rdState cfg s rd)).trans (fwdTop_nest cfg _ fr)
-  have qa := (qa_log cfg 10 (rdState cfg s rd)).trans (qa_fwd cfg _ fr hfb)
-  have hnil := acks_nil_of_quiet qa q evs he
-  rw [Spec.checkAcks_false_ok cfg _ rd.uid evs hnil] at hZ
-  have hW : Spec.CoreExt others (Spec.afterBuf cfg a rd) (Spec.checkDepartures cfg Z none evs) :=
-    ((ext_others (Spec.checkData_ext cfg _ rd.h evs)).trans (core_others hZ)).trans
-      (ext_others (Spec.checkDepartures_ext cfg Z _ evs))
   exact segGoal_of hseg rfl (seg_close (rdState_sim inv.sim rd) (rdState_top ok hfuel inv.top rd) n q evs he hW)
 
 theorem seg_setName (hn : (rd.h.mtype == cfg.mtSetName) = true) (nm : List Nat)
